@@ -14,13 +14,13 @@ TEXT = {
  "C06": ("TRAPA #1-#3, interrupt acceptance for every vector 1-63 and RTE proved against the exception-entry reference, plus the entry;RTE round-trip lemma.", "5.6"),
  "C07": ("The real fetch+exec is proved to call exactly the entry of the encoded form (or reject) for all first words and symbolic extension words, against generated recording stubs. Level `other` because STC.W @-ERd is a recorded known finding.", "5.7"),
  "C08": ("The `ea` obligation of every memory form: every bus access of the real handler lies in the bytes the architectural effective address names, for all 32-bit base values and displacements. Level `other` because of the STC.W @-ERd known finding.", "5.8"),
- "C09": ("Verus proves the real Bus::read/Bus::write bodies against the address-map contract with a whole-map frame (no aliasing) for all u32 addresses, plus the history lemma by induction; Kani proves the word/long helpers are big-endian compositions.", "5.9"),
- "C10": ("Verus proves request/try_interrupt against a queue view (masked => pending, unmasked => oldest delivered once through its own vector) and the history lemma delivered++pending==requested for every history.", "5.10"),
- "C13": ("Verus proves the loop invariant of the extracted Cpu::run: one time base (bus, peripherals, sync messages), success only at the exit address, no fetch after a failed instruction; host-time statements are mechanically shown non-interfering.", "5.13"),
+ "C09": ("Verus proves the real Bus::read/Bus::write bodies against the address-map contract with a whole-map frame (no aliasing) for all u32 addresses, plus the history lemma by induction; Kani proves the word/long helpers are big-endian compositions and that the compiled Bus::read is accessible exactly on the seam's map.", "5.9"),
+ "C10": ("Verus proves request/try_interrupt against a queue view (masked => pending, unmasked => oldest delivered once through its own vector) and the history lemma delivered++pending==requested for every history; call-site scan; plus a native bounded enumeration of all 7-event histories on the real code (labelled bounded) that stays decisive when the queue code leaves Verus's subset.", "5.10"),
+ "C13": ("Verus proves the loop invariant of the extracted Cpu::run: one time base (bus, peripherals, sync messages), success only at the exit address, no fetch after a failed instruction; host-time statements are mechanically shown non-interfering; an assignment scan discharges the frame assumed of the callees (nobody else assigns the time-base fields).", "5.13"),
  "C14": ("set_handler and unknown call numbers: loop-free proofs on the real trapa/trapa_emulate_mes2 incl. the composition with the real exception entry. The write call is a BOUNDED stand-in (length 0-4, fixed argument block, ASCII) and is not counted as proved.", "5.14"),
  "C15": ("All automatic panic/overflow/bounds/unwrap checks inside /repo/src over every harness's full symbolic domain + Verus overflow obligations. Level `other`: fetch().unwrap() and the STC.W @-ERd mapping are recorded known findings; the control-channel part is outside the technique.", "5.15"),
- "C16": ("Inductive representation invariant (latch/direction/pins) per operation on the real Bus for all ports and byte values, message-on-change, non-interference. Level `other`: the missing data latch is a recorded known finding.", "5.16"),
- "C17": ("Per-call contract of the real timer update against a tick-by-tick reference for every TCR/TCNT/TCSR/TCORx value, residual and every u8 charge (unwinding 34 is complete), plus the partition lemma and the clock-change invariant.", "5.17"),
+ "C16": ("Inductive representation invariant (latch/direction/pins) per operation on the real Bus for all ports and byte values, message-on-change, non-interference (Kani + Verus frame clauses) and a native bounded enumeration of the real message text/time stamps. Level `other`: the missing data latch is a recorded known finding.", "5.16"),
+ "C17": ("Per-call contract of the real timer update against a tick-by-tick reference for every TCR/TCNT/TCSR/TCORx value, residual and every u8 charge (unwinding 34 is complete), plus the partition lemma and the clock-change invariant; a native bounded comparison with the same reference keeps the check decisive when a rewrite pushes CBMC over its limit.", "5.17"),
  "C19": ("The real cost functions proved equal to the statement's formula for all five bus-controller bytes, six kinds, counts 1-5 and all addresses in the quantifier.", "5.19"),
  "C20": ("The cycle mix logged through the cost seam equals the manual's table for every form, costed in the area of the right address, and the returned charge is the sum. Level `other`: BSR d:8 and STC.W @-ERd are recorded known findings.", "5.20"),
 }
